@@ -59,7 +59,8 @@ def _fit(job):
     rec = {'n': n, 'vtype': vtype, 'trunc': trunc, 'trees': [], 'w': [], 'admissible': [], 'err': '',
            'src': 'fit:' + pattern}
     try:
-        m = V.fit_vine(df, vtype, trunc)
+        # a third of the models are instances with a past (fitted to another table, sampled, asked for a likelihood)
+        m = V.fit_vine(df, vtype, trunc, past=V.past_table(rs, n, seed) if seed % 3 == 1 else None)
         rec['trees'], rec['admissible'] = V.structure(m.trees)
         if vtype == 'regular':
             rec['w'] = V.rank_matrix(V.kendall_abs(df))
